@@ -186,7 +186,7 @@ impl Driver {
         for f in walframe::frames(&bytes[from..]) {
             let payload = &bytes[from + f.start + 8..from + f.end];
             let entry: TxWalEntry = bitcode::deserialize(payload)
-                .map_err(|e| Fail::new("harness", format!("cannot decode a record the coordinator just wrote: {e}")))?;
+                .map_err(|e| Fail::new("coordinator-wrote-undecodable-record", format!("the bytes the coordinator appended during this call do not frame into decodable records (a gap or garbage inside the log): {e}")))?;
             let mut acc = true;
             if matches!(entry, TxWalEntry::PrepareVote { .. }) {
                 acc = accepted.get(vi).copied().unwrap_or(false);
